@@ -23,7 +23,7 @@ PY_SUCC = "PyLibSucc PySrcSucc PySrcSuccFacts PySrcSuccCtl PySrcSuccCtlFacts"   
 PY_API = PY_SCCMAIN + " PyLibBlocks PySrcSdBlocks PySrcSdBlocksFacts PySrcApi PySrcEndToEndScc PySrcEndToEndBlocks"     # public methods expand_scc / expand_block / build; expand_source_blocks
 PY_CONTROL = "PyLib PyLibSd PyLibPerc PyLibCore PyLibControl PySrcControl PySrcControlFacts PySrcFindDriversFacts PySrcControlCorollaries"    # control.find_drivers, drivers_of_succession
 PY_ASEEDS = PY_MIN + " Candidates Blocks ASeeds PySrcSdASeeds PySrcSdASeedsFacts"     # _sd_algorithms/expand_attractor_seeds.py
-EXTRA_IMPORTS = {"C12": "Filter PySrcFilter PySrcFilterFacts", "C08": "Candidates Control PyLib PyLibSd PyLibPerc PySrcRetained PySrcRetainedFacts PySrcGreedyFacts", "C09": "PetriNet PySrcClingo PySrcClingoFacts", "C17": "Names NamesFacts PySrcNames PySrcNamesFacts", "C02": PY_SD + " " + PY_CORE2 + " PySrcEndToEnd", "C01": PY_API + " Filter PySrcFilter PySrcFilterFacts", "C03": PY_SD + " " + PY_ASEEDS + " PySrcComplFacts " + PY_API + " " + PY_GETTERS, "C04": PY_SD + " " + PY_CORE, "C05": PY_CORE2 + " " + PY_MIN, "C13": PY_SD + " " + PY_TARGET + " " + PY_ASEEDS + " PySrcTermFacts " + PY_API, "C14": PY_CORE2 + " " + PY_SCC + " " + PY_API, "C15": PY_SD + " " + PY_TARGET + " " + PY_ASEEDS + " " + PY_API, "C16": "PyLib PyLibPickle PySrcPickle PySrcPickleFacts " + PY_CORE2,
+EXTRA_IMPORTS = {"C12": "Filter PySrcFilter PySrcFilterFacts", "C08": "Candidates Control PyLib PyLibSd PyLibPerc PySrcRetained PySrcRetainedFacts PySrcGreedyFacts", "C09": "PetriNet PySrcClingo PySrcClingoFacts PySrcCollect PySrcCollectFacts", "C17": "Names NamesFacts PySrcNames PySrcNamesFacts", "C02": PY_SD + " " + PY_CORE2 + " PySrcEndToEnd", "C01": PY_API + " Filter PySrcFilter PySrcFilterFacts", "C03": PY_SD + " " + PY_ASEEDS + " PySrcComplFacts " + PY_API + " " + PY_GETTERS, "C04": PY_SD + " " + PY_CORE, "C05": PY_CORE2 + " " + PY_MIN, "C13": PY_SD + " " + PY_TARGET + " " + PY_ASEEDS + " PySrcTermFacts " + PY_API, "C14": PY_CORE2 + " " + PY_SCC + " " + PY_API, "C15": PY_SD + " " + PY_TARGET + " " + PY_ASEEDS + " " + PY_API, "C16": "PyLib PyLibPickle PySrcPickle PySrcPickleFacts " + PY_CORE2,
                  "C06": PY_SPACE + " " + PY_TARGET + " PySrcEndToEndControl " + PY_CONTROL + " " + PY_SUCC, "C07": PY_CONTROL + " PyLibSd2 PySrcSdBase PySrcSdTarget PySrcSdTargetFacts " + PY_SUCC, "C10": PY_PLACE, "C11": PY_PERC, "C19": PY_SD + " " + PY_CORE, "C20": PY_KEY + " " + PY_CORE2 + " PyLibSd PyLibPerc PySrcIso PySrcIsoFacts " + PY_GETTERS}
 
 def imports_for(pid):
@@ -363,6 +363,8 @@ engine contract, checked on every recorded call against the brute-force twins.""
  theorems=[("source_clingo_model_to_space", "py_clingo_model_to_space_spec", "translator tie for the answer-set readers of trappist_core.py (PySrcClingo.v: loops checked statement by statement, the stored polarity read from the text): on a conflict-free model the dict returned by _clingo_model_to_space is the model's space_of_model (INVERTED polarity: a true atom b1_v fixes v to 0) ..."),
            ("source_clingo_model_to_fixed_point", "py_clingo_model_to_fixed_point_spec", "... and the one returned by _clingo_model_to_fixed_point is state_of_model (direct polarity)"),
            ("source_clingo_model_conflict_asserts", "py_clingo_model_to_space_conflict", None),
+           ("source_trappist_limit_truncates", "py_trappist_collect_spec", "'a solution limit only truncates the list', for the SOURCE TEXT: the collecting half of trappist (guard for a non-positive limit, the save_result closure, the enumerator stopping when it returns False -- PySrcCollect.v, comparisons read from the text) returns the first `limit` answers of the enumeration in order, all of them without a limit"),
+           ("source_reduced_stg_limit_truncates", "py_reduced_stg_collect_spec", None), ("source_trappist_limit_length", "py_trappist_collect_length", None),
            ("trap_program_min", "trap_program_min", "models = trap spaces inside ensure and not inside an avoided space"),
            ("trap_program_fix", "trap_program_fix", None), ("trap_program_max", "trap_program_max_gen", None),
            ("trap_program_reverse", "trap_program_reverse", "time reversal"), ("model_order", "model_order", "more atoms = smaller space"),
